@@ -74,7 +74,7 @@ def _strategy(tier, name):
     @st.composite
     def case(draw):
         dim = 2 if name.endswith("2d") else 3
-        fk = ["constant", "poly", "bumps", "spikes", "checker", "noise", "mixed", "boxnoise"]
+        fk = ["constant", "poly", "bumps", "spikes", "checker", "noise", "mixed", "boxnoise", "stream"]
         return {
             "kernel": name,
             # a third of the cases: more planes along the outermost axis than any slab / block size in use (16, 32)
